@@ -258,6 +258,98 @@ def applyAllV (v : Variant) (G : Id → List Id) (roots : List Id) (fuel : Nat) 
   | (view, extra, op) :: ops, s =>
     (applyV v G roots fuel view extra op s).bind (fun r => applyAllV v G roots fuel ops r.1)
 
+/-! ### the roots: enumerating refs while a ref packer runs
+
+A ref is stored as a loose file, in `packed-refs`, or both.  `pack_refs` writes the new `packed-refs` and unlinks loose
+files.  `allkeys()` (what `find_reachable_objects` enumerates) reads the loose tree and `packed-refs` one after the other;
+the roots are the union of the two views. -/
+
+/-- the ref storage as far as one ref name is concerned: (loose file exists, line in packed-refs exists) -/
+abbrev RefAt := Bool × Bool
+
+inductive RefAct where
+  | writePacked   -- a new packed-refs containing the ref is renamed into place
+  | unlinkLoose   -- the loose file is removed
+  | other         -- anything that does not concern this ref
+  deriving DecidableEq, Repr
+
+def RefAct.ofCode : Nat → RefAct
+  | 0 => .writePacked
+  | 1 => .unlinkLoose
+  | _ => .other
+
+def RefAt.act (s : RefAt) : RefAct → RefAt
+  | .writePacked => (s.1, true)
+  | .unlinkLoose => (false, s.2)
+  | .other => s
+
+/-- the states the storage goes through while the packer's program runs (initial state first) -/
+def refTrace (s : RefAt) : List RefAct → List RefAt
+  | [] => [s]
+  | a :: rest => s :: refTrace (s.act a) rest
+
+/-- the packer writes packed-refs before it unlinks the loose file -/
+def packsBeforeUnlink : Bool → List RefAct → Bool
+  | _, [] => true
+  | packed, .writePacked :: rest => packsBeforeUnlink (packed || true) rest
+  | packed, .unlinkLoose :: rest => packed && packsBeforeUnlink packed rest
+  | packed, .other :: rest => packsBeforeUnlink packed rest
+
+/-- is the ref among the roots when the loose tree is read in the `i`-th and packed-refs in the `j`-th state of `tr`?
+(`looseFirst` = the order in the source: requires `i ≤ j`; otherwise `j ≤ i`) -/
+def rootSeen (tr : List RefAt) (i j : Nat) : Bool :=
+  ((tr[i]?).map (·.1)).getD false || ((tr[j]?).map (·.2)).getD false
+
+/-! ### the grace period as configured (`gc.pruneExpire`)
+
+`ConfigValue` is the configured value as classified by its shape; `graceOf` is `get_prune_grace_period` (keyword table
+and default regenerated from the source); `expiryOf` is what the value MEANS (git's reading): the instant before which
+unreachable objects may be pruned.  `never` means "no object is ever old enough"; it is kept distinct from the API's
+`grace_period=None`, which means "no age check at all". -/
+
+inductive ConfigValue where
+  | unset
+  | keyword (k : String)
+  | secondsAgo (n : Nat)      -- "<n> <unit> ago", "<n>.<unit>.ago", "yesterday"
+  | absolute (t : Nat)        -- a date / date-time, as a timestamp
+  | other                     -- anything else
+  deriving DecidableEq, Repr
+
+inductive GraceResult where
+  | refuse                    -- ValueError: gc does not run
+  | secs (g : Nat)            -- grace period in seconds
+  | noAgeCheck                -- the API's None: everything unreachable goes
+  deriving DecidableEq, Repr
+
+/-- `get_prune_grace_period(config)`; `table` = the literal keywords the function answers itself (value, or `none` for the
+API's None), `dflt` = its answer when the key is not set -/
+def graceOf (table : List (String × Option Nat)) (dflt now : Nat) : ConfigValue → GraceResult
+  | .unset => .secs dflt
+  | .keyword k =>
+    match table.lookup k with
+    | some (some g) => .secs g
+    | some none => .noAgeCheck
+    | none => .refuse
+  | .secondsAgo n => .secs n
+  | .absolute t => .secs (now - t)
+  | .other => .refuse
+
+/-- the keywords git gives a meaning to: `true` = "everything may go" (now, all), `false` = "nothing ever" (never, false) -/
+def gitKeyword (k : String) : Option Bool :=
+  if k = "now" ∨ k = "all" then some true else if k = "never" ∨ k = "false" then some false else none
+
+/-- the expiry instant the value denotes (`none`: the value has no meaning) -/
+def expiryOf (now : Nat) : ConfigValue → Option Nat
+  | .unset => some (now - 1209600)
+  | .keyword k => (gitKeyword k).map (fun all => if all then now else 0)
+  | .secondsAgo n => some (now - n)
+  | .absolute t => some t
+  | .other => none
+
+/-- a keyword table is acceptable iff every keyword it answers means "everything may go" -/
+def tableSound (table : List (String × Option Nat)) : Bool :=
+  table.all (fun e => gitKeyword e.1 == some true)
+
 /-- the default `grace_period` argument of `garbage_collect` (regenerated from the source) -/
 def defaultGrace : Option Nat := some Dulwich.Gen.GC.defaultGracePeriod
 
